@@ -18,6 +18,8 @@ CONSTANTS
   PqRanges = {"mid", "top"}
   Families = {"cfg"}
   PqFamCols = 1
+  PqGroups = {1, 2}
+  PqBads = {"none", "nulltime"}
   U64Check = TRUE
   Emit = FALSE
 INVARIANTS Safety
